@@ -205,6 +205,11 @@ type target struct {
 	small int
 }
 
+// m5sink, when non-nil, makes newTarget build the caches with their `items` map wrapped (every map call is one
+// scheduling step) and receives the M5-granularity events; m5dflt / m5cb are the addresses of the two settings.
+var m5sink func(string)
+var m5dflt, m5cb unsafe.Pointer
+
 func newTarget(kind string, small int, dflt int64, cb int) *target {
 	tg := &target{kind: kind, small: small}
 	switch kind {
@@ -218,7 +223,12 @@ func newTarget(kind string, small int, dflt int64, cb int) *target {
 		tg.m = m
 	case "cache":
 		in := &inst{curCb: cb}
-		in.c = plain{cache.VerifNewCacheSmall(small, time.Duration(dflt), in.mkcb(cb))}
+		if m5sink != nil {
+			c, a, b := cache.VerifNewCacheTraced(small, time.Duration(dflt), in.mkcb(cb), m5sink)
+			in.c, m5dflt, m5cb = plain{c}, a, b
+		} else {
+			in.c = plain{cache.VerifNewCacheSmall(small, time.Duration(dflt), in.mkcb(cb))}
+		}
 		tg.c = in
 	case "cacheof":
 		in := &inst{curCb: cb}
@@ -227,7 +237,12 @@ func newTarget(kind string, small int, dflt int64, cb int) *target {
 		if f != nil {
 			ec = f
 		}
-		in.c = generic{cache.VerifNewCacheOfSmall(small, time.Duration(dflt), ec)}
+		if m5sink != nil {
+			c, a, b := cache.VerifNewCacheOfTraced(small, time.Duration(dflt), ec, m5sink)
+			in.c, m5dflt, m5cb = generic{c}, a, b
+		} else {
+			in.c = generic{cache.VerifNewCacheOfSmall(small, time.Duration(dflt), ec)}
+		}
 		tg.c = in
 	}
 	return tg
@@ -783,10 +798,34 @@ type tracer struct {
 	tid                                   func() int
 	spin                                  bool // Map: the bucket lock is bit 0 of the word; MapOf uses a mutex
 	unlocking                             bool
+	m5                                    bool // cache-level trace (M5): only clock / setting events come through note
+	dfltAddr, cbAddr                      unsafe.Pointer
 }
 
 func (tr *tracer) note(kind string, addr unsafe.Pointer, arg uint64) {
 	tok := ""
+	if tr.m5 {
+		switch kind {
+		case "Clock":
+			tok = fmt.Sprintf("Clock %d", vshim.NowNanos())
+		case "ValueLoad":
+			if addr == tr.dfltAddr {
+				tok = "LdDflt"
+			} else if addr == tr.cbAddr {
+				tok = "LdCb"
+			}
+		case "ValueStore":
+			if addr == tr.dfltAddr {
+				tok = "StDflt"
+			} else if addr == tr.cbAddr {
+				tok = "StCb"
+			}
+		}
+		if tok != "" {
+			tr.evs = append(tr.evs, fmt.Sprintf("ev %d %s", tr.tid(), tok))
+		}
+		return
+	}
 	switch kind {
 	case "LoadPointer":
 		if addr == tr.table {
@@ -882,10 +921,23 @@ func explore(p *program, strategy int, schedSeed uint64, budget int, keepTrace b
 	vshim.SetSeed(uint64(p.seed))
 	vshim.HashMode = p.hashMd
 	vshim.SetClock(p.now)
-	tg := newTarget(p.kind, p.small, p.dflt, p.cb)
-	out := &outcome{prog: p, strategy: strategy, schedSd: schedSeed}
 	var tr *tracer
 	curTid := 9 // prefill runs as pseudo-thread 9
+	isCacheKind := p.kind == "cache" || p.kind == "cacheof"
+	m5sink = nil
+	if keepTrace && isCacheKind {
+		// M5 granularity: map calls (one step each), clock and setting reads, callbacks
+		tr = &tracer{tid: func() int { return curTid }, m5: true}
+		m5sink = func(e string) { tr.evs = append(tr.evs, fmt.Sprintf("ev %d %s", tr.tid(), e)) }
+		vshim.Trace = tr.note
+		defer func() { vshim.Trace = nil; m5sink = nil }()
+	}
+	tg := newTarget(p.kind, p.small, p.dflt, p.cb)
+	if tr != nil && tr.m5 {
+		tr.dfltAddr, tr.cbAddr = m5dflt, m5cb
+		tg.c.onCb = func(k string, v interface{}) { m5sink(fmt.Sprintf("Cb %s %s", k, val(v))) }
+	}
+	out := &outcome{prog: p, strategy: strategy, schedSd: schedSeed}
 	if keepTrace && !tg.isCache() {
 		tr = &tracer{tid: func() int { return curTid }, spin: p.kind == "map"}
 		tr.table, tr.resizing, tr.mu = tg.m.VerifAddrs()
@@ -902,6 +954,9 @@ func explore(p *program, strategy int, schedSeed uint64, budget int, keepTrace b
 		if f[0] == "tick" {
 			vshim.Advance(atoi64(f[1]))
 			out.preRes = append(out.preRes, "-")
+			if tr != nil && tr.m5 {
+				tr.evs = append(tr.evs, "ev 9 Tick "+f[1])
+			}
 			continue
 		}
 		var r string
